@@ -109,6 +109,8 @@ import E3nnVerif.Generated.TP.M010
 import E3nnVerif.Generated.TP.M007
 import E3nnVerif.Generated.TP.M011
 import E3nnVerif.Generated.TP.M012
+import E3nnVerif.Generated.TP.M014
+import E3nnVerif.Generated.TP.M015
 import E3nnVerif.Generated.TP.M013
 import E3nnVerif.Generated.TP.R000
 import E3nnVerif.Generated.TP.R001
@@ -230,6 +232,8 @@ def registry : List (String × Cfg × List Node) := [
   ("M007", M007.cfg, M007.prog),
   ("M011", M011.cfg, M011.prog),
   ("M012", M012.cfg, M012.prog),
+  ("M014", M014.cfg, M014.prog),
+  ("M015", M015.cfg, M015.prog),
   ("M013", M013.cfg, M013.prog),
   ("R000", R000.cfg, R000.prog),
   ("R001", R001.cfg, R001.prog),
